@@ -83,9 +83,19 @@ Definition literals_okb : bool :=
   && strs_eqb (map fst scan_kinds) (map fst object_kinds)
   && String.eqb c_dateLayout "2006-01-02 15:04:05 MST".
 
+(* the encoder's hooks are declared on the VALUE receiver: only then does encoding/xml find them
+   for every way a value reaches it (xml.Marshal(v) by value, a value field of a struct passed by
+   value, the content of an interface), which is what the model's single encoding function of the
+   value assumes.  A pointer-receiver MarshalXML / MarshalXMLAttr / MarshalText is found for
+   addressable values only (wave 7, seeded C04-r5-1: Date.MarshalXML on *Date). *)
+Definition marshal_hooks_on_value (sch : schema) : bool :=
+  forallb (fun d => negb (existsb (fun m => String.eqb m "*MarshalXML" || String.eqb m "*MarshalXMLAttr"
+                                            || String.eqb m "*MarshalText") (t_methods d))) sch.
+
 Definition schema_okb (sch : schema) : bool :=
   forallb (fun p => struct_vs_spec sch (fst p) (snd p)) struct_pairs
-  && strs_eqb (xml_method_types sch) expected_method_types.
+  && strs_eqb (xml_method_types sch) expected_method_types
+  && marshal_hooks_on_value sch.
 
 Lemma gen_schema_ok : schema_okb gen_schema = true.
 Proof. vm_compute. reflexivity. Qed.
@@ -98,5 +108,6 @@ Lemma schema_ok_names : forall T s,
   In (T, s) struct_pairs -> struct_vs_spec gen_schema T s = true.
 Proof.
   intros T s Hin. pose proof gen_schema_ok as H. unfold schema_okb in H.
+  apply andb_true_iff in H. destruct H as [H _].
   apply andb_true_iff in H. destruct H as [H _]. rewrite forallb_forall in H. exact (H (T, s) Hin).
 Qed.
